@@ -731,6 +731,13 @@ class Interp:
             return self.host.opaque_call(args[0] if args else None, fi.name, args[1:], kwargs, node)
         if "staticmethod" in fi.decorators and self_av is not None:
             args = args[1:]
+        if fi.decorators and any(d.split(".")[-1].split("(")[0] in ("lru_cache", "cache") for d in fi.decorators):
+            # functools caches hash their arguments before the body runs: an array, an object, a nodelist or an
+            # instance of a class that defines __eq__ without __hash__ raises TypeError at the call (A1)
+            for a in list(args) + list(kwargs.values()):
+                why = self._unhashable(a)
+                if why:
+                    raise AbsRaise(HostExc("TypeError", f"unhashable type: {why} (argument of the cached function {fi.qualname})"), self.site(node) if node else None)
         self.touched.add(fi.qualname)
         fr = Frame(fi, fi.module, parent=closure)
         fr.self_av = self_av if self_av is not None else (args[0] if fi.cls is not None and args else None)
@@ -1099,6 +1106,23 @@ class Interp:
             st,
             orelse=(lambda: self.exec_block(st.orelse, fr)) if st.orelse else None,
         )
+
+    def _unhashable(self, a: Any) -> Optional[str]:
+        if isinstance(a, (PyList, PyDict, PySet)):
+            return type(a).__name__[2:].lower()
+        if isinstance(a, Sym):
+            k = self.kind_of(a)
+            return k if k in ("list", "dict") else None
+        if isinstance(a, Inst):
+            for c in a.cls.mro() if hasattr(a.cls, "mro") else [a.cls]:
+                names = set(getattr(c, "methods", {}) or {})
+                if "__hash__" in names:
+                    return None
+                if "__eq__" in names:
+                    return c.name
+            if a.seq is not None or any(str(b).split("[")[0].split(".")[-1] in ("list", "dict", "set", "List", "Dict") for c in a.cls.mro() for b in c.external_bases):
+                return a.cls.name
+        return None
 
     def _source_may_be_empty(self, src: Any, node: ast.AST) -> bool:
         """Fork on 'the iterated value is empty' for a JSON value / abstract source whose length is a linear form;
